@@ -1,4 +1,16 @@
 //@include prelude/header.rs
+// Unit analyze (v2, COMPOSED): analyze_file_internal / analyze_file / analyze_file_fresh.
+// Callee contracts that were hand-written external_body stubs and are now `//@stub` copies of PROVED contracts:
+//   get_canonical_path, get_line_index   <- unit memo_keys  (under the cache invariants canon_cache_wf / li_cache_wf and
+//                                            the no-collision hypothesis of the call; `canon` := canon_now)
+//   evict_cache_if_needed                <- unit memo_v2    (memo tables only shrink, index / environment untouched)
+//   visit_stmt                           <- unit visit_v2   (needs the environment hypothesis env_ok, gives vframe)
+// New explicit hypotheses (requires of the three entry points, re-established as ensures, so they are INDUCTIVE over
+// a sequence of analyses): env_ok (prelude/visit_env.rs), li_cache_wf(line_index_cache), canon_cache_wf(
+// canonical_path_cache); and, per call, li_no_collision(line_index_cache, canon(file), content@) (H-ideal of unit memo_keys: the text
+// analysed does not collide with the text the cached line index of the file was built from -- NOT re-established, it
+// is a hypothesis about each (state, text) pair; hash_collides_with_nothing(text) implies it).
+// The database struct lists every field except ast_cache (frames: prelude/index_dbspecs_all.rs, visit_env.rs).
 use rustpython_parser::{parse, Mode};
 use rustpython_parser::ast::{Stmt, Expr, Keyword, Identifier, Constant, ExceptHandler, ExprCall, Alias, Arguments, ArgWithDefault};
 use rustpython_parser::text_size::TextRange;
@@ -7,6 +19,7 @@ global size_of usize == 8;  // A6: 64-bit target
 pub mod pre {
 use super::*;
 //@include prelude/path.rs
+//@include prelude/path_ext.rs
 //@include prelude/types.rs
 //@include prelude/dashmap.rs
 //@include prelude/hashset.rs
@@ -36,18 +49,29 @@ use super::*;
 //@include prelude/visit_spec.rs
 //@include prelude/analyze_spec.rs
 //@include prelude/analyze_l2.rs
+// vocabulary of unit memo_keys (src_line_index / parse_ok / ast_of are this unit's own uninterpreted functions)
+//@include prelude/memokeys_spec.rs
+//@include prelude/fs_canonical_decl.rs
+//@include prelude/memokeys_canon_spec.rs
+//@include prelude/memokeys_l2.rs
 } // mod pre
 use pre::*;
 
 #[verifier::external_type_specification] pub struct ExUndeclaredFixture(UndeclaredFixture);
 
-//@dbstruct_arc definitions file_definitions usages usage_by_fixture definitions_version file_cache undeclared_fixtures imports
+#[verifier::external_type_specification] pub struct ExFixtureCycle(FixtureCycle);
+//@item src/fixtures/mod.rs struct EditableInstall
+//@dbstruct_arc definitions file_definitions usages usage_by_fixture definitions_version file_cache undeclared_fixtures imports canonical_path_cache line_index_cache cycle_cache available_fixtures_cache imported_fixtures_cache site_packages_paths editable_install_roots workspace_root plugin_fixture_files
 
-//@include prelude/index_dbspecs.rs
-//@include prelude/visit_dbspecs.rs
+//@include prelude/index_dbspecs_all.rs
+//@include prelude/opt_pbv.rs
+//@include prelude/classify_spec.rs
+//@include prelude/visit_env.rs
+//@include prelude/visit_dbspecs_v2.rs
 
-/// canonicalisation of a path (file-system fact; get_canonical_path memoises it)
-pub uninterp spec fn canon(p: PV) -> PV;
+/// canonicalisation of a path: what unit memo_keys PROVES get_canonical_path to return under canon_cache_wf --
+/// `path.canonicalize()` in the ONE file-system state fs_canonical (A4), else the path itself
+pub open spec fn canon(p: PV) -> PV { canon_now(p) }
 
 pub assume_specification[ rustpython_parser::parse ](source: &str, mode: rustpython_parser::Mode, source_path: &str) -> (r: Result<rustpython_parser::ast::Mod, rustpython_parser::ParseError>)
     ensures match r {
@@ -63,29 +87,17 @@ impl FixtureDatabase {
 //@stub index_maint cleanup_usages_for_file
 //@stub index_maint cleanup_definitions_for_file
 
-    // ---- callee contracts ASSUMED here (A4 / A7)
-    #[verifier::external_body]
-    pub(crate) fn get_canonical_path(&self, path: PathBuf) -> (r: PathBuf)
-        ensures pbv(&r) == canon(pbv(&path))
-    { unimplemented!() }
-    #[verifier::external_body]
-    /// memoised build_line_index (unit line_index proves is_line_index for build_line_index)
-    pub(crate) fn get_line_index(&self, file_path: &Path, content: &str) -> (r: Arc<Vec<usize>>)
-        ensures (*r)@ == src_line_index(content@), is_line_index(ints((*r)@)),
-    { unimplemented!() }
+    // ---- memoised getters: the contracts PROVED in unit memo_keys (cache invariant + no-collision hypothesis of the call)
+//@stub memo_keys get_canonical_path
+//@stub memo_keys get_line_index
+    // ---- callee contract ASSUMED here (no contract: its only effect is on `names`, which is stored in `imports`)
     #[verifier::external_body]
     fn collect_module_level_names(&self, stmt: &Stmt, names: &mut HashSet<String>)
     { unimplemented!() }
-    // A7 DISCHARGED: the contract of visit_stmt is the one PROVED in unit visit
+    // A7 DISCHARGED: the contract of visit_stmt is the one PROVED in unit visit (v2: with env_ok / vframe)
 //@stub visit visit_stmt
-    #[verifier::external_body]
-    pub(crate) fn evict_cache_if_needed(&mut self)
-        ensures final(self).definitions == old(self).definitions, final(self).file_definitions == old(self).file_definitions,
-            final(self).usages == old(self).usages, final(self).usage_by_fixture == old(self).usage_by_fixture,
-            final(self).definitions_version == old(self).definitions_version,
-            final(self).undeclared_fixtures == old(self).undeclared_fixtures, final(self).imports == old(self).imports,
-            // eviction may drop cached texts (file_cache) — see C07.c
-    { unimplemented!() }
+    // eviction: the contract PROVED in unit memo (v2: all memo tables only shrink, nothing else is written)
+//@stub memo evict_cache_if_needed
 
 /*@ extract src/fixtures/analyzer.rs analyze_file_internal
 @tags C04 C06 C07 C10 C12 C19
@@ -93,11 +105,18 @@ impl FixtureDatabase {
 @wrapexpr 1 `file_path .file_name() .map(|n| n == "conftest.py") .unwrap_or(false)` => `Self::vp_is_conftest(&file_path)` with fn vp_is_conftest(file_path: &PathBuf) -> bool
 @sig
     requires old(self).version() < u64::MAX,
+        // v2: environment hypothesis, cache invariants, and the H-ideal hypothesis for the text analysed
+        old(self).env_ok(), li_cache_wf(old(self).line_index_cache.m()), canon_cache_wf(old(self).canonical_path_cache.m()),
+        // H-ideal of unit memo_keys, for THIS call only: the line index cached for this file (if any) was built from a
+        // text that does not collide with `content` (implied by hash_collides_with_nothing(content@): memokeys_l2.rs)
+        li_no_collision(old(self).line_index_cache.m(), canon(pbv(&file_path)), content@),
         // no wrap-around of the u64 version counter during this analysis (one bump per recorded definition)
         parse_ok(content@) ==> old(self).version() + 1 + stmts_vdefs(body_of(ast_of(content@)), canon(pbv(&file_path)), content@).len() <= u64::MAX,
     ensures
         // O1 (C07): every analysis moves the version
         final(self).version() != old(self).version(),
+        // v2: the hypotheses are inductive (they hold again afterwards)
+        final(self).env_ok(), li_cache_wf(final(self).line_index_cache.m()), canon_cache_wf(final(self).canonical_path_cache.m()),
         // parse failure keeps the index (C06: the last valid version stays in effect)
         !parse_ok(content@) ==> final(self).defs() == old(self).defs() && final(self).fdefs() == old(self).fdefs()
             && final(self).uses() == old(self).uses() && final(self).byfix() == old(self).byfix()
@@ -117,7 +136,15 @@ impl FixtureDatabase {
     let ghost f0 = canon(pbv(&file_path));
 @after file_path 3
     let ghost f = pbv(&file_path);
+    let ghost e0 = *self;   // state after get_canonical_path: only canonical_path_cache differs from old(self)
+    proof { assert(e0.env_ok() && e0.line_index_cache == old(self).line_index_cache); }
 @before is_conftest 1
+    proof {
+        // frames of the index-maintenance callees (rest() over all non-index fields) and of the direct map writes
+        assert(self.line_index_cache == e0.line_index_cache && self.canonical_path_cache == e0.canonical_path_cache);
+        assert(self.env_ok());
+        assert(f == f0 && li_no_collision(self.line_index_cache.m(), f, content@));
+    }
     let ghost d0 = self.defs();
     let ghost fd0 = self.fdefs();
     let ghost u0 = self.uses();
@@ -135,6 +162,7 @@ impl FixtureDatabase {
 @loopvar 2 it
 @loop 2
     invariant
+        self.env_ok(), li_cache_wf(self.line_index_cache.m()), canon_cache_wf(self.canonical_path_cache.m()),
         f == pbv(&file_path), body == module.body@, it.seq() == body.as_ref(),
         (*line_index)@ == src_line_index(content@), is_line_index(ints((*line_index)@)), module_pre(body, (*line_index)@),
         old(self).version() + 1 + stmts_vdefs(body, f, content@).len() <= u64::MAX,
@@ -162,6 +190,17 @@ impl FixtureDatabase {
     }
 @after for 2
     proof { assert(body.take(body.len() as int) =~= body); }
+@before evict_cache_if_needed 1
+    let ghost lm0 = self.line_index_cache.m();
+    proof { assert(li_cache_wf(lm0)); }
+@after evict_cache_if_needed 1
+    proof {
+        // the invariant survives removal of entries (memo_v2: line_index_cache only shrinks)
+        let lm2 = self.line_index_cache.m();
+        assert forall|g: PV| lm2.contains_key(g) implies li_entry_ok(#[trigger] lm2[g]) by {
+            assert(lm2.dom().contains(g)); assert(lm0.dom().contains(g)); assert(lm2[g] == lm0[g]);
+        }
+    }
 @*/
 
 /*@ extract src/fixtures/analyzer.rs analyze_file
@@ -169,10 +208,17 @@ impl FixtureDatabase {
 @recv mut
 @sig
     requires old(self).version() < u64::MAX,
+        // v2: environment hypothesis, cache invariants, and the H-ideal hypothesis for the text analysed
+        old(self).env_ok(), li_cache_wf(old(self).line_index_cache.m()), canon_cache_wf(old(self).canonical_path_cache.m()),
+        // H-ideal of unit memo_keys, for THIS call only: the line index cached for this file (if any) was built from a
+        // text that does not collide with `content` (implied by hash_collides_with_nothing(content@): memokeys_l2.rs)
+        li_no_collision(old(self).line_index_cache.m(), canon(pbv(&file_path)), content@),
         parse_ok(content@) ==> old(self).version() + 1 + stmts_vdefs(body_of(ast_of(content@)), canon(pbv(&file_path)), content@).len() <= u64::MAX,
     ensures
         // the public entry points are exactly analyze_file_internal with cleanup_previous = true: no shortcut, no extra work
         final(self).version() != old(self).version(),
+        // v2: the hypotheses are inductive (they hold again afterwards)
+        final(self).env_ok(), li_cache_wf(final(self).line_index_cache.m()), canon_cache_wf(final(self).canonical_path_cache.m()),
         !parse_ok(content@) ==> final(self).defs() == old(self).defs() && final(self).fdefs() == old(self).fdefs()
             && final(self).uses() == old(self).uses() && final(self).byfix() == old(self).byfix()
             && final(self).undeclared_fixtures == old(self).undeclared_fixtures && final(self).imports == old(self).imports,
@@ -193,10 +239,17 @@ impl FixtureDatabase {
 @recv mut
 @sig
     requires old(self).version() < u64::MAX,
+        // v2: environment hypothesis, cache invariants, and the H-ideal hypothesis for the text analysed
+        old(self).env_ok(), li_cache_wf(old(self).line_index_cache.m()), canon_cache_wf(old(self).canonical_path_cache.m()),
+        // H-ideal of unit memo_keys, for THIS call only: the line index cached for this file (if any) was built from a
+        // text that does not collide with `content` (implied by hash_collides_with_nothing(content@): memokeys_l2.rs)
+        li_no_collision(old(self).line_index_cache.m(), canon(pbv(&file_path)), content@),
         parse_ok(content@) ==> old(self).version() + 1 + stmts_vdefs(body_of(ast_of(content@)), canon(pbv(&file_path)), content@).len() <= u64::MAX,
     ensures
         // the public entry points are exactly analyze_file_internal with cleanup_previous = false: no shortcut, no extra work
         final(self).version() != old(self).version(),
+        // v2: the hypotheses are inductive (they hold again afterwards)
+        final(self).env_ok(), li_cache_wf(final(self).line_index_cache.m()), canon_cache_wf(final(self).canonical_path_cache.m()),
         !parse_ok(content@) ==> final(self).defs() == old(self).defs() && final(self).fdefs() == old(self).fdefs()
             && final(self).uses() == old(self).uses() && final(self).byfix() == old(self).byfix()
             && final(self).undeclared_fixtures == old(self).undeclared_fixtures && final(self).imports == old(self).imports,
@@ -219,6 +272,11 @@ impl FixtureDatabase {
 @wrapexpr 1 `file_path .file_name() .map(|n| n == "conftest.py") .unwrap_or(false)` => `Self::vp_is_conftest2(&file_path)` with fn vp_is_conftest2(file_path: &PathBuf) -> bool
 @sig
     requires old(self).version() < u64::MAX,
+        // v2: environment hypothesis, cache invariants, and the H-ideal hypothesis for the text analysed
+        old(self).env_ok(), li_cache_wf(old(self).line_index_cache.m()), canon_cache_wf(old(self).canonical_path_cache.m()),
+        // H-ideal of unit memo_keys, for THIS call only: the line index cached for this file (if any) was built from a
+        // text that does not collide with `content` (implied by hash_collides_with_nothing(content@): memokeys_l2.rs)
+        li_no_collision(old(self).line_index_cache.m(), canon(pbv(&file_path)), content@),
         // no wrap-around of the u64 version counter during this analysis (one bump per recorded definition)
         parse_ok(content@) ==> old(self).version() + 1 + stmts_vdefs(body_of(ast_of(content@)), canon(pbv(&file_path)), content@).len() <= u64::MAX,
     ensures parse_ok(content@) ==> final(self).uses() == old(self).uses(),
@@ -226,7 +284,15 @@ impl FixtureDatabase {
     let ghost f0 = canon(pbv(&file_path));
 @after file_path 3
     let ghost f = pbv(&file_path);
+    let ghost e0 = *self;   // state after get_canonical_path: only canonical_path_cache differs from old(self)
+    proof { assert(e0.env_ok() && e0.line_index_cache == old(self).line_index_cache); }
 @before is_conftest 1
+    proof {
+        // frames of the index-maintenance callees (rest() over all non-index fields) and of the direct map writes
+        assert(self.line_index_cache == e0.line_index_cache && self.canonical_path_cache == e0.canonical_path_cache);
+        assert(self.env_ok());
+        assert(f == f0 && li_no_collision(self.line_index_cache.m(), f, content@));
+    }
     let ghost d0 = self.defs();
     let ghost fd0 = self.fdefs();
     let ghost u0 = self.uses();
@@ -244,6 +310,7 @@ impl FixtureDatabase {
 @loopvar 2 it
 @loop 2
     invariant
+        self.env_ok(), li_cache_wf(self.line_index_cache.m()), canon_cache_wf(self.canonical_path_cache.m()),
         f == pbv(&file_path), body == module.body@, it.seq() == body.as_ref(),
         (*line_index)@ == src_line_index(content@), is_line_index(ints((*line_index)@)), module_pre(body, (*line_index)@),
         old(self).version() + 1 + stmts_vdefs(body, f, content@).len() <= u64::MAX,
@@ -271,7 +338,109 @@ impl FixtureDatabase {
     }
 @after for 2
     proof { assert(body.take(body.len() as int) =~= body); }
+@before evict_cache_if_needed 1
+    let ghost lm0 = self.line_index_cache.m();
+    proof { assert(li_cache_wf(lm0)); }
+@after evict_cache_if_needed 1
+    proof {
+        // the invariant survives removal of entries (memo_v2: line_index_cache only shrinks)
+        let lm2 = self.line_index_cache.m();
+        assert forall|g: PV| lm2.contains_key(g) implies li_entry_ok(#[trigger] lm2[g]) by {
+            assert(lm2.dom().contains(g)); assert(lm0.dom().contains(g)); assert(lm2[g] == lm0[g]);
+        }
+    }
+@*/
+
+// exec canary: the same real body WITHOUT the H-ideal hypothesis for the text -- must FAIL at the precondition of
+// get_line_index (the contract proved in unit memo_keys cannot be used without it)
+/*@ extract src/fixtures/analyzer.rs analyze_file_internal
+@tags C06
+@as canary_analyze_without_no_collision_hypothesis
+@recv mut
+@wrapexpr 1 `file_path .file_name() .map(|n| n == "conftest.py") .unwrap_or(false)` => `Self::vp_is_conftest3(&file_path)` with fn vp_is_conftest3(file_path: &PathBuf) -> bool
+@sig
+    requires old(self).version() < u64::MAX,
+        // v2: environment hypothesis, cache invariants, and the H-ideal hypothesis for the text analysed
+        old(self).env_ok(), li_cache_wf(old(self).line_index_cache.m()), canon_cache_wf(old(self).canonical_path_cache.m()),
+        // no wrap-around of the u64 version counter during this analysis (one bump per recorded definition)
+        parse_ok(content@) ==> old(self).version() + 1 + stmts_vdefs(body_of(ast_of(content@)), canon(pbv(&file_path)), content@).len() <= u64::MAX,
+    ensures true,
+@start
+    let ghost f0 = canon(pbv(&file_path));
+@after file_path 3
+    let ghost f = pbv(&file_path);
+    let ghost e0 = *self;   // state after get_canonical_path: only canonical_path_cache differs from old(self)
+    proof { assert(e0.env_ok() && e0.line_index_cache == old(self).line_index_cache); }
+@before is_conftest 1
+    proof {
+        // frames of the index-maintenance callees (rest() over all non-index fields) and of the direct map writes
+        assert(self.line_index_cache == e0.line_index_cache && self.canonical_path_cache == e0.canonical_path_cache);
+        assert(self.env_ok());
+    }
+    let ghost d0 = self.defs();
+    let ghost fd0 = self.fdefs();
+    let ghost u0 = self.uses();
+    let ghost b0 = self.byfix();
+    proof {
+        assert(u0 =~~= old(self).uses().remove(f));
+        assert(b0 == clean_byfix(old(self).byfix(), f));
+    }
+@before for 1
+    let ghost body = module.body@;
+    proof { assert(body == body_of(ast_of(content@))); assert(f == f0); }
+@loopvar 1 it0
+@loop 1
+    invariant self.definitions == old(self).definitions || true,
+@loopvar 2 it
+@loop 2
+    invariant
+        self.env_ok(), li_cache_wf(self.line_index_cache.m()), canon_cache_wf(self.canonical_path_cache.m()),
+        f == pbv(&file_path), body == module.body@, it.seq() == body.as_ref(),
+        (*line_index)@ == src_line_index(content@), is_line_index(ints((*line_index)@)), module_pre(body, (*line_index)@),
+        old(self).version() + 1 + stmts_vdefs(body, f, content@).len() <= u64::MAX,
+        self.version() == old(self).version() + 1 + stmts_vdefs(body.take(it.index@ as int), f, content@).len(),
+        self.defs() == push_defs(d0, stmts_vdefs(body.take(it.index@ as int), f, content@)),
+        self.fdefs() == add_fdefs(fd0, stmts_vdefs(body.take(it.index@ as int), f, content@)),
+        self.uses() == push_uses(u0, stmts_vuses(body.take(it.index@ as int), f, content@)),
+        self.byfix() == push_byfix(b0, stmts_vuses(body.take(it.index@ as int), f, content@)),
+@loopstart 2
+    let ghost i0 = it.index@ as int;
+    proof { assert(body[i0] == *stmt); assert(visit_pre(body[i0], (*line_index)@)); }
+@loopend 2
+    proof {
+        assert(body[i0] == *stmt);
+        let t0 = body.take(i0);
+        let t1 = body.take(i0 + 1);
+        assert(t1.drop_last() =~= t0);
+        assert(t1.last() == body[i0]);
+        lemma_push_defs_concat(d0, stmts_vdefs(t0, f, content@), vdefs(body[i0], f, content@));
+        lemma_add_fdefs_concat(fd0, stmts_vdefs(t0, f, content@), vdefs(body[i0], f, content@));
+        lemma_push_uses_concat(u0, stmts_vuses(t0, f, content@), vuses(body[i0], f, content@));
+        lemma_push_byfix_concat(b0, stmts_vuses(t0, f, content@), vuses(body[i0], f, content@));
+        lemma_stmts_vdefs_len_mono(body, i0 + 1, f, content@);
+        lemma_bumpn_no_wrap((old(self).version() + 1 + stmts_vdefs(t0, f, content@).len()) as u64, vdefs(body[i0], f, content@).len() as int);
+    }
+@after for 2
+    proof { assert(body.take(body.len() as int) =~= body); }
+@before evict_cache_if_needed 1
+    let ghost lm0 = self.line_index_cache.m();
+    proof { assert(li_cache_wf(lm0)); }
+@after evict_cache_if_needed 1
+    proof {
+        // the invariant survives removal of entries (memo_v2: line_index_cache only shrinks)
+        let lm2 = self.line_index_cache.m();
+        assert forall|g: PV| lm2.contains_key(g) implies li_entry_ok(#[trigger] lm2[g]) by {
+            assert(lm2.dom().contains(g)); assert(lm0.dom().contains(g)); assert(lm2[g] == lm0[g]);
+        }
+    }
 @*/
 }
+
+/// canary: "the hypotheses of an analysis (environment, cache invariants, H-ideal for the text) are contradictory"
+pub proof fn canary_analyze_hypotheses_contradictory(db: FixtureDatabase, t: Seq<char>)
+    requires db.env_ok(), li_cache_wf(db.line_index_cache.m()), canon_cache_wf(db.canonical_path_cache.m()), hash_collides_with_nothing(t),
+        forall|f: PV| li_no_collision(db.line_index_cache.m(), f, t),
+    ensures false,
+{}
 } // verus!
 fn main() {}
